@@ -159,6 +159,28 @@ def run(res, tier, seed):
             res.violation("oracle", f"JSON round trip of {m!r}: {problem}", {"op": "roundtrip", "model": ast_json(ast), "cfg": False, "problem": problem})
         add_corr(m, False)
         res.sample({"model": repr(m), "json": json.dumps(m.to_json())[:300]})
+    # unnamed one-leaf threshold nodes (both signs, thresholds around 1) as condition / consequence of an Imply and as operands:
+    # the shapes a serialiser is tempted to write as the bare leaf
+    prng = random.Random(seed * 7933 + 16)
+    for _ in range(40 if tier == "quick" else 400):
+        def one_leaf():
+            lf = {"k": "var", "id": prng.choice("tuv"), "b": [prng.randint(-3, 0), prng.randint(0, 3)]} if prng.random() < 0.7 else {"k": "str", "id": prng.choice("tuv")}
+            v = prng.choice([1, 1, -1, 0, 2])
+            return prng.choice([{"k": "AtMost", "v": -v, "ch": [lf], "id": None}, {"k": "AtLeast", "v": v, "s": -1, "ch": [lf], "id": None},
+                                {"k": "AtLeast", "v": v, "s": 1, "ch": [lf], "id": None}, {"k": "AtLeast", "v": v, "s": None, "ch": [lf], "id": None}])
+        other = prng.choice([{"k": "str", "id": "x"}, {"k": "Any", "ch": [{"k": "str", "id": "x"}, {"k": "str", "id": "y"}], "id": prng.choice(["B", None])}, one_leaf()])
+        pair = [one_leaf(), other] if prng.random() < 0.7 else [other, one_leaf()]
+        ast = {"k": "Imply", "ch": pair, "id": prng.choice(["I", None])} if prng.random() < 0.75 else {"k": prng.choice(["All", "Any", "Xor"]), "ch": pair, "id": prng.choice(["W", None])}
+        try:
+            m = build(ast)
+            if m.errors() or not plain(m, allow_const=True):
+                continue
+        except Exception:
+            continue
+        res.count("one_leaf_threshold_nodes")
+        problem = oracle_model(res, ast, m, prng, 30, 400)
+        if problem:
+            res.violation("oracle", f"JSON round trip of {m!r}: {problem}", {"op": "roundtrip", "model": ast_json(ast), "cfg": False, "problem": problem})
     # configurators
     for _ in range(n_cfg):
         g = ConfigGen(random.Random(rng.getrandbits(64)))
